@@ -237,6 +237,9 @@ def create_lut_int16_op(op, lut_fn, fn_name):
         midpoint_val = round_away_zero(val_midpoint * output_scaling_inv)
         midpoint_err = midpoint_interp_val - midpoint_val
         bias = round_away_zero(midpoint_err / 2)
+        if np.isnan(bias):
+            # the function value is beyond the float range (inf - inf): the entry saturates
+            bias = 0
 
         lut_result = min(max(sample_val - bias, table_min), table_max)
         values.append(lut_result)
